@@ -228,10 +228,14 @@ fn enforce_hasher_state<E: FieldElement + From<Felt>>(
     constraint_offset += STATE_WIDTH;
 
     // When absorbing the next set of elements into the state during linear hash computation,
-    // the first 4 elements (the capacity portion) is carried over to the next row.
+    // the first 4 elements (the capacity portion) is carried over to the next row. When absorbing
+    // the next node during Merkle path computation, a new 2-to-1 hash is started, so the capacity
+    // portion of the next row must be reset to zeros.
     let hash_abp_flag = last_row * frame.f_abp();
+    let merkle_absorb_flag = last_row * (frame.f_mpa() + frame.f_mva() + frame.f_mua());
     for (idx, result) in result[constraint_offset..].iter_mut().take(CAPACITY_LEN).enumerate() {
         *result = hash_abp_flag * (frame.h_next(idx) - frame.h(idx))
+            + merkle_absorb_flag * frame.h_next(idx)
     }
     constraint_offset += CAPACITY_LEN;
 
